@@ -2581,7 +2581,7 @@ class sptensor:
                     else:
                         newsz.append(max([self.shape[n], max(key_n) + 1]))
                     m = m + 1
-            self.shape = tuple(newsz)
+            self.shape = tuple(int(n) for n in newsz)
 
             # Expand subs array if there are new modes, i.e., if the order
             # has increased.
@@ -2655,7 +2655,7 @@ class sptensor:
                 newsz.append(max(key[n]) + 1)
             else:
                 newsz.append(key[n] + 1)
-        self.shape = tuple(newsz)
+        self.shape = tuple(int(n) for n in newsz)
 
         # Expand subs array if there are new modes, i.e. if the order has increased
         if self.subs.size > 0 and len(self.shape) > self.subs.shape[1]:
